@@ -21,6 +21,11 @@ except ImportError:
     BlobServiceClient = None
 
 
+def _as_int(*ordinals):
+    """Ordinals may arrive as NumPy integers of any width; byte offsets are computed with Python integers"""
+    return tuple(o if o is None else int(o) for o in ordinals)
+
+
 class SgzReader(object):
     """Reads SGZ files
 
@@ -389,6 +394,7 @@ class SgzReader(object):
         inline : numpy.ndarray of float32, shape: (n_xlines, n_samples)
             The specified inline, decompressed
         """
+        il_id, = _as_int(il_id)
         if self.is_2d:
             raise WrongDimensionalityError("Trying to read inlines from 2D file")
         if not 0 <= il_id < self.n_ilines:
@@ -434,6 +440,7 @@ class SgzReader(object):
         crossline : numpy.ndarray of float32, shape: (n_ilines, n_samples)
             The specified crossline, decompressed
         """
+        xl_id, = _as_int(xl_id)
         if self.is_2d:
             raise WrongDimensionalityError("Trying to read crosslines from 2D file")
         if not 0 <= xl_id < self.n_xlines:
@@ -477,6 +484,7 @@ class SgzReader(object):
         zslice : numpy.ndarray of float32, shape: (n_ilines, n_xlines)
             The specified zslice (time or depth, depending on file contents), decompressed
         """
+        zslice_id, = _as_int(zslice_id)
         if self.is_2d:
             raise WrongDimensionalityError("Trying to read zslices from 2D file")
         if not 0 <= zslice_id < self.n_samples:
@@ -527,6 +535,8 @@ class SgzReader(object):
             - Shape (n_diagonal_traces OR max_cd_idx-min_cd_idx, n_samples OR max_sample_idx-min_sample_idx)
             The specified cd_slice, decompressed.
         """
+        cd_id, min_cd_idx, max_cd_idx, min_sample_idx, max_sample_idx = _as_int(cd_id, min_cd_idx, max_cd_idx,
+                                                                                min_sample_idx, max_sample_idx)
         if self.is_2d:
             raise WrongDimensionalityError("Trying to read diagonal from 2D file")
         if not -self.n_xlines < cd_id < self.n_ilines:
@@ -595,6 +605,8 @@ class SgzReader(object):
             - Shape (n_diagonal_traces OR max_ad_idx-min_ad_idx, n_samples OR max_sample_idx-min_sample_idx)
             The specified ad_slice, decompressed.
         """
+        ad_id, min_ad_idx, max_ad_idx, min_sample_idx, max_sample_idx = _as_int(ad_id, min_ad_idx, max_ad_idx,
+                                                                                min_sample_idx, max_sample_idx)
         if self.is_2d:
             raise WrongDimensionalityError("Trying to read diagonal from 2D file")
         if not 0 <= ad_id < self.n_ilines + self.n_xlines - 1:
@@ -659,6 +671,7 @@ class SgzReader(object):
         subplane : numpy.ndarray of float32, shape (max_trace - min_trace, max_z - min_z)
             The specified subplane, decompressed
         """
+        min_trace, max_trace, min_z, max_z = _as_int(min_trace, max_trace, min_z, max_z)
         if self.is_3d:
             raise WrongDimensionalityError("Trying to read subplane from 3D file")
         upper_trace = self.shape_pad[1] if access_padding else self.tracecount
@@ -710,6 +723,7 @@ class SgzReader(object):
         subvolume : numpy.ndarray of float32, shape (max_il - min_il, max_xl - min_xl, max_z - min_z)
             The specified subvolume, decompressed
         """
+        min_il, max_il, min_xl, max_xl, min_z, max_z = _as_int(min_il, max_il, min_xl, max_xl, min_z, max_z)
         if self.is_2d:
             raise WrongDimensionalityError("Trying to read subvolume from 2D file")
         upper_il = self.shape_pad[0] if access_padding else self.n_ilines
@@ -810,6 +824,7 @@ class SgzReader(object):
         trace : numpy.ndarray of float32, shape (n_samples) or (max_sample_id - min_sample_id)
             A single trace, decompressed
         """
+        index, min_sample_id, max_sample_id = _as_int(index, min_sample_id, max_sample_id)
         if self.is_2d:
             if not 0 <= index < self.tracecount:
                 raise IndexError(self.range_error.format(index, 0, self.tracecount - 1))
@@ -979,6 +994,7 @@ class SgzReader(object):
         header : dict
             A single header as a dictionary of headerword-value pairs
         """
+        index, = _as_int(index)
         if self.is_3d and not 0 <= index < self.n_ilines * self.n_xlines:
             raise IndexError(self.range_error.format(index, 0, self.tracecount))
 
